@@ -295,4 +295,63 @@ def runFvsrc (kv : List (String × String)) : String := Id.run do
   let rd2 := sortDedup (sel.map v.evalS)
   return s!"route=mask:write-from-range:scalar-loop V={V} VAL={hex (digFp 0 mem)} WSEQ={hex (hashNats 0 (ins.map (·.1)))} NW={ins.length} RD1={hex (hashNats 0 rd1)} RD2={hex (hashNats 0 rd2)}"
 
+private def allOf (n : Nat) : List Nat := List.range n
+
+/-- `A(it) op= <evaluating rhs>` on a 1-D parent: kind 0 `P % q`, 2 `P % q + D`, 3 `B % A` (reads the parent) -/
+def runRstaged (kv : List (String × String)) : String := Id.run do
+  let some cfgName := getS kv "cfg" | return "bad-op"
+  let some cfg := Cfg.ofName cfgName | return "bad-op"
+  let some sz := getN kv "sz" | return "bad-op"
+  let some vea := getN kv "vea" | return "bad-op"
+  let some c := getN kv "c" | return "bad-op"
+  let some n := getN kv "n" | return "bad-op"
+  let some i0s := getS kv "i0" | return "bad-op"
+  let some ops := getS kv "op" | return "bad-op"
+  let some kind := getN kv "kind" | return "bad-op"
+  let i0 := parseNats i0s
+  let it : Nat → Nat := fun i => i0.getD i 0
+  let V := cfg.native.lanes sz
+  let op := aopOf ops
+  let tok : Nat → Nat → Fp := fun w p => Fp.ofTok w p
+  let rhsOf : (Nat → Fp) → Nat → Fp := fun mem j =>
+    if kind == 3 then mmAt (tok 5) mem c 1 j
+    else if kind == 2 then mmAt (tok 2) (tok 3) 2 1 j + tok 4 j else mmAt (tok 2) (tok 3) 2 1 j
+  let par : Nat → Fp := tok 1
+  let tmp := rhsOf par
+  let ins := scatter (vea == 1) Fp.ofInt (stagedEnv tok 7 tmp) it (fun _ => false) (.t 7) n V
+  let fin := stagedScatter (vea == 1) op.ap Fp.ofInt tok it (fun _ => false) rhsOf n V par
+  let mem := (List.range c).map fin
+  let rd1 := sortDedup ((if op != .set then ins.map (·.1) else []) ++ (if kind == 3 then allOf c else []))
+  let rd2 := if kind == 3 then [] else allOf (n * 2)
+  return s!"route=flat1:write-staged:{pathOf (vea == 1) n V} V={V} VAL={hex (digFp 0 mem)} WSEQ={hex (hashNats 0 (ins.map (·.1)))} NW={ins.length} RD1={hex (hashNats 0 rd1)} RD2={hex (hashNats 0 rd2)}"
+
+/-- `A(mask) op= <evaluating rhs>` on an `m x n` parent: kind 0 `P % Q`, 1 `trans(C)`, 2 `P % Q + D`, 3 `A % B` -/
+def runFstaged (kv : List (String × String)) : String := Id.run do
+  let some cfgName := getS kv "cfg" | return "bad-op"
+  let some cfg := Cfg.ofName cfgName | return "bad-op"
+  let some sz := getN kv "sz" | return "bad-op"
+  let some m := getN kv "m" | return "bad-op"
+  let some n := getN kv "n" | return "bad-op"
+  let some ms := getS kv "mask" | return "bad-op"
+  let some ops := getS kv "op" | return "bad-op"
+  let some kind := getN kv "kind" | return "bad-op"
+  let bits := ms.toList.map (· == '1')
+  let mask : Nat → Bool := fun i => bits.getD i false
+  let V := cfg.native.lanes sz
+  let op := aopOf ops
+  let tok : Nat → Nat → Fp := fun w p => Fp.ofTok w p
+  let rhsOf : (Nat → Fp) → Nat → Fp := fun mem p =>
+    if kind == 3 then mmAt mem (tok 5) n n p
+    else if kind == 1 then tok 6 (p % n * m + p / n)
+    else if kind == 2 then mmAt (tok 2) (tok 3) 2 n p + tok 4 p else mmAt (tok 2) (tok 3) 2 n p
+  let par : Nat → Fp := tok 1
+  let sz2 := m * n
+  let ins := filterInstrs Fp.ofInt (stagedEnv tok 7 (rhsOf par)) (fun i => i) mask (.t 7) sz2
+  let fin := stagedFilter op.ap Fp.ofInt tok (fun i => i) mask rhsOf sz2 par
+  let mem := (List.range sz2).map fin
+  let sel := (List.range sz2).filter fun p => mask p
+  let rd1 := sortDedup ((if op != .set then sel else []) ++ (if kind == 3 then allOf sz2 else []))
+  let rd2 := if kind == 0 || kind == 2 then allOf (m * 2) else []
+  return s!"route=mask:write-staged:scalar-loop V={V} VAL={hex (digFp 0 mem)} WSEQ={hex (hashNats 0 (ins.map (·.1)))} NW={ins.length} RD1={hex (hashNats 0 rd1)} RD2={hex (hashNats 0 rd2)}"
+
 end Fastor.Driver
